@@ -56,6 +56,8 @@ func validReply(cmd, name, variant string) string {
 			delete(m, strings.TrimPrefix(variant, "missing-"))
 		case variant == "wrongName":
 			m["name"] = "another-plugin"
+		case variant == "wrongNameCase":
+			m["name"] = strings.ToUpper(name[:1]) + name[1:] // differs from the file name by letter case only
 		case variant == "wrongContract":
 			m["supportedContractVersions"] = []string{"2.0"}
 		}
@@ -76,11 +78,11 @@ func validReply(cmd, name, variant string) string {
 func procScript(in PPIn, name, fifo string) string {
 	var sb strings.Builder
 	sb.WriteString("#!/bin/sh\ncat > /dev/null\n")
-	if in.Timing == "heldPipes" || in.Timing == "slowHeld" {
+	if in.Timing == "heldPipes" || in.Timing == "slowHeld" || in.Timing == "slowHeldCancel" {
 		// a descendant that inherits stdout/stderr and keeps them open until the harness releases it
 		fmt.Fprintf(&sb, "( read x < %q ) &\n", fifo)
 	}
-	if in.Timing == "slow" || in.Timing == "slowHeld" {
+	if in.Timing == "slow" || in.Timing == "slowHeld" || in.Timing == "slowCancel" || in.Timing == "slowHeldCancel" {
 		fmt.Fprintf(&sb, "read x < %q\n", fifo) // the plugin itself hangs beyond the deadline
 	}
 	switch {
@@ -154,6 +156,12 @@ func runPluginProc() int {
 		}
 		rssBefore := procStatusKB("VmRSS")
 		ctx, cancel := context.WithTimeout(context.Background(), timeout)
+		if strings.HasSuffix(in.Timing, "Cancel") {
+			// cancellation instead of a deadline: the context is cancelled by hand at the same moment
+			cancel()
+			ctx, cancel = context.WithCancel(context.Background())
+			time.AfterFunc(ppDeadline, cancel)
+		}
 		var callErr error
 		// watchdog: a call that is still pending long after the bound is released by force, so that the run ends
 		release := func() {
